@@ -2972,41 +2972,50 @@ impl Context {
             }
             Expr::If(cond, then, else_) => {
                 let (c, _, state_c) = self.eval_expr(*cond);
+                // Both arms must enter and leave with the same cursor position: a cursor
+                // move still pending from before the branch is emitted here, not inside
+                // whichever arm happens to touch state first.
+                self.consume_and_insert_pushoffset();
                 let cond_bidx = self.get_ctxdata().current_bb;
 
                 // This is just a placeholder. At this point, the locations of
                 // the block are not determined yet. These 0s will be
                 // overwritten later.
                 let _ = self.push_inst(Instruction::JmpIf(c, 0, 0, 0));
-                //todo: state offset for branches
+                // The cells of the two arms are laid out one after the other (then-cells,
+                // else-cells), so every call site keeps a cell of its own: the then-arm
+                // steps over the else-cells when it is done, the else-arm steps over the
+                // then-cells before it starts.
                 //insert then block
                 let then_bidx = cond_bidx + 1;
                 let (t, _, state_t) = self.eval_block(Some(*then));
+                self.consume_and_insert_pushoffset();
+                let then_end_bidx = self.get_ctxdata().current_bb;
                 //jmp to ret is inserted in bytecodegen
                 //insert else block
                 let else_bidx = self.get_ctxdata().current_bb + 1;
                 let (e, _, state_e) = self.eval_block(*else_);
+                self.consume_and_insert_pushoffset();
                 let then_size = state_t.iter().map(|s| s.total_size()).sum::<u64>();
                 let else_size = state_e.iter().map(|s| s.total_size()).sum::<u64>();
-                let branch_state = match then_size.cmp(&else_size) {
-                    std::cmp::Ordering::Greater => {
-                        let elseb = self.get_current_fn().body.get_mut(else_bidx).unwrap();
-                        elseb.0.push((
+                if then_size > 0 {
+                    let elseb = self.get_current_fn().body.get_mut(else_bidx).unwrap();
+                    elseb.0.insert(
+                        0,
+                        (
                             Arc::new(Value::None),
-                            Instruction::PushStateOffset(then_size - else_size),
-                        ));
-                        state_t.clone()
-                    }
-                    std::cmp::Ordering::Less => {
-                        let thenb = self.get_current_fn().body.get_mut(then_bidx).unwrap();
-                        thenb.0.push((
-                            Arc::new(Value::None),
-                            Instruction::PushStateOffset(else_size - then_size),
-                        ));
-                        state_e.clone()
-                    }
-                    std::cmp::Ordering::Equal => state_t.clone(),
-                };
+                            Instruction::PushStateOffset(then_size),
+                        ),
+                    );
+                }
+                if else_size > 0 {
+                    let thenb = self.get_current_fn().body.get_mut(then_end_bidx).unwrap();
+                    thenb.0.push((
+                        Arc::new(Value::None),
+                        Instruction::PushStateOffset(else_size),
+                    ));
+                }
+                let branch_state = [state_t, state_e].concat();
                 //insert return block
                 self.add_new_basicblock();
                 let res = self.push_inst(Instruction::Phi(t, e));
